@@ -750,6 +750,14 @@ fn histories_for(ctx: &Ctx, o: &Opts, prop: &str, quick: bool) -> Vec<History> {
                 let seed = derive(o.seed, "C14", i as u64);
                 hs.push(gen::c14_random(ctx, &mut Rng::new(seed), seed, quick));
             }
+            // with a second build of the tool (other embedded data): the data changes under the
+            // on-disk index and back
+            if ctx.alt.is_some() {
+                for i in 0..n(12, 120) {
+                    let seed = derive(o.seed, "C14-two", i as u64);
+                    hs.push(gen::c14_two_builds(ctx, &mut Rng::new(seed), seed, quick));
+                }
+            }
         }
         "C16" => {
             let perms = if quick { Perms::Reverse } else { Perms::All };
@@ -962,6 +970,35 @@ fn cmd_run(o: &Opts) -> i32 {
         }
         let n_cells = cells.len();
         collect(&mut st, &mut found, &cells);
+        // phase 2b: two interruptions in a row, the directory possibly damaged in between - enumerated,
+        // not drawn: a first start killed late (from the commit onwards: whatever it leaves is "almost
+        // done"), then nothing / the index directory lost / the metadata lost, then a start killed
+        // early in the recovery, then two undisturbed starts
+        {
+            let late: Vec<(&str, usize)> = vec![("rebuild.before_commit", 0), ("rebuild.committed", 0), ("rebuild.reloaded", 0), ("meta.before_create", 0), ("meta.created", 0), ("meta.write", 3), ("meta.written", 0), ("open.done", 0)];
+            let early: Vec<&str> = if quick { vec!["index.ready", "rebuild.start", "rebuild.cleared", "rebuild.before_commit", "rebuild.committed", "meta.written"] } else { vec!["open.config_read", "index.before_remove", "index.meta_invalidated", "index.removed", "index.dir_created", "index.ready", "rebuild.meta_invalidated", "rebuild.start", "rebuild.writer_created", "rebuild.cleared", "rebuild.asset_start", "rebuild.after_add", "rebuild.before_commit", "rebuild.committed", "rebuild.reloaded", "meta.before_create", "meta.created", "meta.written"] };
+            let damages: Vec<Option<anything_sim::dirstate::Damage>> = vec![None, Some(anything_sim::dirstate::Damage::DeleteIndexDir), Some(anything_sim::dirstate::Damage::DeleteMeta)];
+            let starts: Vec<(String, anything_sim::dirstate::StateSpec)> = if quick { states.iter().filter(|(t, _)| t == "absent").cloned().collect() } else { states.iter().filter(|(t, _)| t == "absent" || t == "complete" || t.starts_with("other-data") || t.starts_with("index-missing")).cloned().collect() };
+            let mut cells = Vec::new();
+            for (tag, st0) in &starts {
+                for (p1, k1) in &late {
+                    for d in &damages {
+                        for p2 in &early {
+                            let seed = derive(o.seed, "C15-twice", cells.len() as u64);
+                            let mut steps = vec![Step::Fabricate { state: st0.clone() }, Step::Start { session: gen::c15_session(&ctx, vec![Fault::Kill { point: p1.to_string(), k: *k1 }], subset.clone()) }];
+                            if let Some(d) = d {
+                                steps.push(Step::Damage { d: d.clone() });
+                            }
+                            steps.push(Step::Start { session: gen::c15_session(&ctx, vec![Fault::Kill { point: p2.to_string(), k: 0 }], subset.clone()) });
+                            steps.push(Step::Start { session: gen::c15_session_ordered(&ctx, vec![], subset.clone(), cells.len() % 2 == 1) });
+                            steps.push(Step::Start { session: gen::c15_session(&ctx, vec![], subset.clone()) });
+                            cells.push(History { property: "C15".into(), seed, label: format!("{tag} x kill@{p1} / {} / kill@{p2}", d.as_ref().map(|d| format!("{d:?}")).unwrap_or_else(|| "-".into())), steps });
+                        }
+                    }
+                }
+            }
+            collect(&mut st, &mut found, &cells);
+        }
         // phase 3: seeded deeper histories
         let n_random = o.runs.unwrap_or(if quick { 40 } else { 2000 });
         let randoms: Vec<History> = (0..n_random)
@@ -1582,12 +1619,15 @@ fn cmd_mkdata(o: &Opts) -> i32 {
     let dst = Path::new(&args[1]);
     std::fs::create_dir_all(dst).unwrap_or_else(|e| harness_fail(&e.to_string()));
     let mut altered = 0;
+    let mut other_size = 0;
     let mut names: Vec<String> = std::fs::read_dir(&src).unwrap_or_else(|e| harness_fail(&e.to_string())).flatten().map(|e| e.file_name().to_string_lossy().to_string()).collect();
     names.sort();
     for n in names {
         let orig = std::fs::read(src.join(&n)).unwrap_or_else(|e| harness_fail(&e.to_string()));
         let mut out = orig.clone();
-        if n.ends_with(".bin.gz") && n != "sources.bin.gz" {
+        // VERIF_MKDATA_ONLY=first: only the first fact asset changes (a partial update of the data)
+        let only_first = std::env::var("VERIF_MKDATA_ONLY").map(|v| v == "first").unwrap_or(false);
+        if n.ends_with(".bin.gz") && n != "sources.bin.gz" && !(only_first && altered > 0) {
             let mut raw = Vec::new();
             flate2::read::GzDecoder::new(&orig[..]).read_to_end(&mut raw).unwrap_or_else(|e| harness_fail(&e.to_string()));
             // change letters inside description strings, in place, keeping every length
@@ -1619,6 +1659,14 @@ fn cmd_mkdata(o: &Opts) -> i32 {
                 let mut enc = flate2::GzBuilder::new().write(Vec::new(), flate2::Compression::best());
                 enc.write_all(&r).unwrap();
                 let z = enc.finish().unwrap();
+                if attempt == 39 && out == orig {
+                    // no candidate of the original compressed size: keep one of another size rather
+                    // than leave the asset unaltered (names, uncompressed length and CRC-32 still agree)
+                    out = z.clone();
+                    altered += 1;
+                    other_size += 1;
+                    break;
+                }
                 if z.len() <= orig.len() {
                     let pad = orig.len() - z.len();
                     let z = if pad == 0 {
@@ -1644,7 +1692,7 @@ fn cmd_mkdata(o: &Opts) -> i32 {
     let parent = dst.parent().map(|p| p.display().to_string()).unwrap_or_default();
     let b = shipped::load(&parent).unwrap_or_else(|e| harness_fail(&format!("altered data does not decode: {e}")));
     let differing = a.constants.iter().zip(b.constants.iter()).filter(|(x, y)| shipped::canon(x) != shipped::canon(y)).count();
-    println!("mkdata: {altered} asset(s) altered in place (same names, same sizes), {} constants, {differing} differ", b.constants.len());
+    println!("mkdata: {altered} asset(s) altered in place (same names, uncompressed lengths and CRC-32; {} of them also the same compressed size), {} constants, {differing} differ", altered - other_size, b.constants.len());
     if altered == 0 || differing == 0 || a.constants.len() != b.constants.len() {
         return 2;
     }
